@@ -457,6 +457,21 @@ def case_key(case):
     return repr(case)
 
 
+def too_wide(s: str, limit=5000) -> bool:
+    """harness-side filter: a candidate whose ranges would enumerate more than `limit` numbers is not evaluated"""
+    import re
+    for piece in re.split(r"[,: ]", s):
+        if "-" in piece:
+            ab = piece.split("-")
+            if len(ab) == 2:
+                try:
+                    if int(ab[1], 0) - int(ab[0], 0) > limit:
+                        return True
+                except ValueError:
+                    pass
+    return False
+
+
 def make_str_shrinker(ctx, op, real_fn, canon=None, extra=""):
     """greedy character deletion keeping `real != oracle`"""
 
@@ -464,7 +479,7 @@ def make_str_shrinker(ctx, op, real_fn, canon=None, extra=""):
         s = case
         for _ in range(200):
             cands = [s[:i] + s[i + 1:] for i in range(len(s))]
-            cands = list(dict.fromkeys(cands))
+            cands = [c for c in dict.fromkeys(cands) if not too_wide(c)]
             if not cands:
                 break
             outs = ctx.lean([f"{op} {hs(c)}{extra}" for c in cands])
@@ -600,6 +615,13 @@ def run(ctx):
         ctx.ev()
         ctx.nontrivial((fn, s if isinstance(s, str) else repr(s)))
 
+    direct = {}
+
+    def limited(kind, n=3):
+        """at most `n` reports per class of direct (un-shrunk) disagreement"""
+        direct[kind] = direct.get(kind, 0) + 1
+        return direct[kind] <= n
+
     # ---- 1. integers -------------------------------------------------------------------------------------
     shr_int = make_str_shrinker(ctx, "int", real.int)
     alpha = "0179afxob_+- gX"
@@ -629,11 +651,11 @@ def run(ctx):
         exp = f"some {z}"
         B.add(f"int {hs(s)}", real.int(s), "auto_int", s, shrink=shr_int, site="utils.auto_int")
         r = real.int(s)
-        if r != exp:
+        if r != exp and limited("auto_int-spell"):
             ctx.disagree(f"auto_int-spell:{sp['base']}:{s!r}", f"auto_int({s!r}) = {r}, the spelled integer is {z}",
                          {"fn": "auto_int", "input": s, "spelled": z}, impl=r, model=exp, spec_violated=True, site="utils.auto_int")
         r2 = real.field_int(s)
-        if r2 != exp:
+        if r2 != exp and limited("AutoInt-field"):
             ctx.disagree(f"AutoInt-field:{sp['base']}:{s!r}", f"AutoInt field on {s!r} = {r2}, the spelled integer is {z}",
                          {"fn": "AutoInt", "input": s, "spelled": z}, impl=r2, model=exp, spec_violated=True, site="command.config.AutoInt")
     # Python's own notations and near misses
@@ -669,7 +691,7 @@ def run(ctx):
         nt("unravel", s)
         ctx.kind(*[f"unravel:{k}" for k in sorted(elems_kind(es))] or ["unravel:empty"])
         impl = real.unravel1(s)
-        if impl != d:
+        if impl != d and limited("unravel-render"):
             s2, impl2, d2 = s, impl, d
             ctx.disagree(f"unravel-render:{s2!r}", f"unravel({s2!r}) = {impl2}; the expression denotes {d2}",
                          {"fn": "unravel", "input": s2, "elements": elems_tok(es)}, impl=impl2, model=d2, spec_violated=True,
@@ -738,7 +760,7 @@ def run(ctx):
         if len(keys) != len(set(keys)):
             ctx.kind("unravel2d:repeated-outer-key")
         impl = real.unravel2(s)
-        if impl != d:
+        if impl != d and limited("unravel2d-render"):
             ctx.disagree(f"unravel2d-render:{s!r}", f"unravel_2d({s!r}) = {impl}; the expression denotes {d}",
                          {"fn": "unravel_2d", "input": s, "items": items_tok(items)}, impl=impl, model=d, spec_violated=True,
                          site="utils.unravel_2d")
@@ -890,7 +912,7 @@ def run(ctx):
         nt("TargetURI", r)
         ctx.kind("uri:raw-" + (sch or "plain"))
         rp = real.parse(r)
-        if rp != mp:
+        if rp != mp and limited("TargetURI-parse"):
             ctx.disagree(f"TargetURI-parse:{r!r}", f"TargetURI({r!r}) reads {rp}; expected {mp}", {"fn": "parse", "input": r},
                          impl=rp, model=mp, spec_violated=True, site="TargetURI")
         if sch and mp != "err":
@@ -900,7 +922,7 @@ def run(ctx):
         sch, r = raws[i]
         q = real.qs_flat(r)
         rc = real.config(sch, q) if q is not None else "err"
-        if rc != mc:
+        if rc != mc and limited(f"config-{sch}-raw"):
             ctx.disagree(f"config-{sch}-raw:{r!r}", f"{sch} config from {r!r}: got {rc}, expected {mc}", {"fn": "config", "input": r},
                          impl=rc, model=mc, spec_violated=True, site=f"{sch} config")
         ctx.traces_validated += 1
